@@ -273,6 +273,10 @@ class C11(PoolCheck):
         # an unknown xsi:type (in-scope prefix) on an element that a wildcard admits and a global declaration matches
         ('xsitype_unknown_on_known', b'<w:known', b'<w:known xmlns:xsi="http://www.w3.org/2001/XMLSchema-instance" xsi:type="w:Nope"'),
         # a list-typed element that decodes to nothing, followed by one of the same name
+        # a restricted list in an ATTRIBUTE: an item that cannot be decoded and a facet of the list violated at once
+        ('attrlist_item_and_facet', b'tl="1 2 3"', b'tl="1 x"'), ('attrlist_only_bad_item', b'tl="1 2 3"', b'tl="x"'),
+        # xsi:nil is a boolean: its lexical space admits surrounding blanks
+        ('nil_padded', b'xsi:nil="true"', b'xsi:nil=" true "'), ('nil_padded_zero', b'xsi:nil="true"', b'xsi:nil="0 "'),
         ('emptylist_then_same', b'<nums>', b'<nums> </nums><nums>'), ('emptylist_l', b'<f:l>', b'<f:l>  </f:l><f:l>'),
         ('hint_ipv6', b'>', b' xmlns:xsi="http://www.w3.org/2001/XMLSchema-instance" xsi:schemaLocation="urn:n http://[::1">'), ('ctrlchar', b'>', b'>&#1;'), ('bigcharref', b'>', b'>&#1114112;'),
         ('nan', b'1', b'NaN'), ('inf', b'1', b'-INF'), ('exp', b'1', b'1e999999999'), ('dur', b'true', b'P99999999999999Y'),
